@@ -37,6 +37,19 @@ CM_H = 'src/tbb/concurrent_monitor.h'
 CQ_H = 'include/oneapi/tbb/concurrent_queue.h'
 
 MUTANTS = [
+    dict(name='c12-seed-double-destroy-loser', prop='C12', clause='D4', edits=[(CUB_H, """        auto insert_result = internal_insert(insert_node->value(), init_node);
+
+        if (!insert_result.inserted) {
+            // If the insertion failed - destroy the node which was created
+""", """        auto insert_result = internal_insert(insert_node->value(), init_node);
+
+        if (insert_result.remaining_node != nullptr) {
+            destroy_node(insert_result.remaining_node);
+        }
+
+        if (!insert_result.inserted) {
+            // If the insertion failed - destroy the node which was created
+""")]),
     dict(name='c02-seed-conditional-wakeup-forward', prop='C02', clause='D4', edits=[
         (AR_CPP, "            size_t index2 = arena::out_of_arena;\n", "            size_t index2 = arena::out_of_arena;\n            bool was_woken = false;\n"),
         (AR_CPP, "                a->my_exit_monitors.commit_wait(waiter);\n", "                was_woken |= a->my_exit_monitors.commit_wait(waiter);\n"),
